@@ -9,7 +9,6 @@ import (
 	"fmt"
 	"strconv"
 	"strings"
-	"testing/synctest"
 
 	"verifharness/emit"
 	"verifharness/vhdr"
@@ -94,7 +93,7 @@ func (r *runner) explore(n int) []string {
 		r.ds = r.rec
 		r.newStore()
 		startOK := r.s.Start(ctx) == nil
-		synctest.Wait()
+		quiesce()
 		p1 := r.probe()
 		// continuation: everything from above the reopened head (or tail, or 0) up to two above the highest stored height
 		var base, top uint64
@@ -121,7 +120,7 @@ func (r *runner) explore(n int) []string {
 		if len(hs) > 0 {
 			_ = r.s.Append(ctx, hs...)
 			_ = r.s.Sync(ctx)
-			synctest.Wait()
+			quiesce()
 			p2 = r.probe()
 		}
 		_ = r.s.Stop(ctx)
